@@ -302,23 +302,29 @@ def hexNumber (L : Lexer) : Step :=
   | (false, _) => .ok none
   | (true, t) => breakAt L (eatWhile isAsciiHexDigit t).2 .hex
 
+/-- the edge case of `number`: `10..`, `10.x`, `10._x` are an integer followed
+by something else (`tail.chars().nth(1)` after a `.`). -/
+def numberEdge (P : Preds) (t : List Char) : Bool :=
+  match t with
+  | '.' :: c :: _ => P.xidStart c || c == '.' || c == '_'
+  | _ => false
+
+/-- the fraction: `'.' digit*` -/
+def numberDot (t : List Char) : Bool × List Char :=
+  match eatChar '.' t with
+  | (true, u) => (true, (eatWhile isRotoDigit u).2)
+  | (false, u) => (false, u)
+
+/-- the exponent: `('e' | 'E') ('+' | '-')? digit*` -/
+def numberExp (r : Bool × List Char) : Bool × List Char :=
+  match eatOneOf ['e', 'E'] r.2 with
+  | (true, v) => (true, (eatWhile isRotoDigit (eatOneOf ['+', '-'] v).2).2)
+  | (false, _) => r
+
 /-- the `'float:` block of `number`: (is_float, tail) from the tail after the
-leading digits. `break 'float` (edge case `10..`, `10.x`, `10._x`) skips the
-exponent as well. -/
+leading digits. `break 'float` (the edge case) skips the exponent as well. -/
 def numberFloatPart (P : Preds) (t : List Char) : Bool × List Char :=
-  let edge : Bool :=
-    match t with
-    | '.' :: c :: _ => P.xidStart c || c == '.' || c == '_'
-    | _ => false
-  if edge then (false, t)
-  else
-    let r : Bool × List Char :=
-      match eatChar '.' t with
-      | (true, u) => (true, (eatWhile isRotoDigit u).2)
-      | (false, u) => (false, u)
-    match eatOneOf ['e', 'E'] r.2 with
-    | (true, v) => (true, (eatWhile isRotoDigit (eatOneOf ['+', '-'] v).2).2)
-    | (false, _) => r
+  if numberEdge P t then (false, t) else numberExp (numberDot t)
 
 /-- `number`: integer or float literal with optional type suffix. -/
 def number (P : Preds) (L : Lexer) : Step :=
